@@ -228,6 +228,40 @@ def uniqOk (keys u : List (List Int)) : Bool :=
 /-- stable argsort stand-in -/
 def argsortStd (xs : List Nat) : List Nat := (xs.zipIdx.mergeSort fun a b => decide (a.1 ≤ b.1)).map (·.2)
 
+
+/-! ## call histories and batches
+
+The functions of this file are pure: a sequence of calls a caller makes (possibly updating its tensors in place in
+between — the model sees the values current at the time of the call) is the list of the single results, and a batched
+call is the list of the per-item results.  The correspondence check runs such histories / batches against the real
+code (`hist` stream, item-wise oracles); `history_stateless` / `batched_itemwise` are the clauses it compares with. -/
+
+/-- one call of a history, with ALL its per-call arguments -/
+inductive Call (α : Type)
+  | nbr (o : Norm) (pdim : Nat) (radius : α) (n : Int) (pts : List (Pt α))
+  | knnf (o : Norm) (pdim kk : Nat) (radius : Option α) (pts : List (Pt α))
+  | voxel (vox : List α) (pts : List (Pt α))
+  | randf (perm : List Nat) (num : Nat) (pts : List (Pt α))
+
+def evalCall (topk : Bool → List α → Nat → List Nat) (tr : α → Int) (uniq : List (List Int) → List (List Int)) :
+    Call α → Option (List (Pt α))
+  | .nbr o pdim radius n pts => some (nbrFilter o pdim radius n pts)
+  | .knnf o pdim kk radius pts => knnFilter topk o pdim kk radius pts
+  | .voxel vox pts => some (voxelFilter tr uniq vox pts)
+  | .randf perm num pts => randomFilter perm num pts
+
+def runHistory (topk : Bool → List α → Nat → List Nat) (tr : α → Int) (uniq : List (List Int) → List (List Int))
+    (h : List (Call α)) : List (Option (List (Pt α))) := h.map (evalCall topk tr uniq)
+
+/-- `knn_filter` without radius on a batch `(B, N, D)` -/
+def knnFilterBatch (topk : Bool → List α → Nat → List Nat) (o : Norm) (pdim kk : Nat)
+    (clouds : List (List (Pt α))) : List (Option (List (Pt α))) := clouds.map (knnFilter topk o pdim kk none)
+
+/-- `knn` on a batch of (reference, neighbour) cloud pairs -/
+def knnBatch (topk : Bool → List α → Nat → List Nat) (o : Norm) (largest : Bool) (kk : Nat)
+    (pairs : List (List (Pt α) × List (Pt α))) : List (Option (List (List α × List Nat))) :=
+  pairs.map fun p => knn topk o largest kk p.1 p.2
+
 /-! ## camera helpers -/
 
 /-- `cart2homo`: append a one -/
